@@ -167,11 +167,12 @@ def run(ctx, chk):
             report_aborts(chk, "C01.R7", unit, s.I.events, where)
 
     # production-level: CMP no write-back, frames
-    ov = {"memory_addr": addr_atom("m"), "byte_label": addr_atom("lb"), "word_label": addr_atom("lw")}
+    from units import address_overrides
+    ov = address_overrides(G)
     ai = arch_index(P)
     for nt, tabnts in (("binary_arithmetic", ("byte_binary_arithmetic", "word_binary_arithmetic")),
                        ("unary_arithmetic", ("byte_unary_arithmetic", "word_unary_arithmetic"))):
-        for k, p in enumerate(G.productions(nt)):
+        for nt, k, p in G.instruction_productions(nt):
             label = G.prod_label(nt, k)
             syms = [s["name"] for s in p["symbols"]]
             tab = syms[0]
